@@ -412,9 +412,9 @@ impl C06 {
                 acc.count("scale_parse", 1);
                 let text = unit.repeat(*reps);
                 let n_chars = text.chars().count();
-                let t0 = Instant::now();
+                let t0 = thread_cpu_secs();
                 let r = Self::parse_only(&text);
-                let dt = t0.elapsed().as_secs_f64();
+                let dt = thread_cpu_secs() - t0;
                 acc.count("traces", 1);
                 match r {
                     Ok((toks, nodes, errs)) => {
@@ -446,10 +446,10 @@ impl C06 {
             Case::ScaleFull { kind, reps } => {
                 acc.count("scale_full", 1);
                 let text = scale_program(*kind, *reps);
-                let t0 = Instant::now();
+                let t0 = thread_cpu_secs();
                 // the sweep hook would abort at 4*nodes+32; scaling has its own envelope
                 let r = Self::lint_text(&text);
-                let dt = t0.elapsed().as_secs_f64();
+                let dt = thread_cpu_secs() - t0;
                 acc.count("traces", 1);
                 match r {
                     Ok((_, passes)) => {
